@@ -185,6 +185,97 @@ theorem slideStep_inv (basis : Array W) (p : Pos) (top : Piece) (stack : W) (dx 
   have hd := dropOn_sizes basis nx top stack st.ct c (st.x + dx + (st.y + dy) * (p.cfg.size : Int)).toNat
   refine ⟨?_, ?_, ?_, ?_, ?_, ?_⟩ <;> simp only [] <;> omega
 
+/-- what the drop loop never touches: reserves, ply, configuration -/
+def Frame (a b : Pos) : Prop :=
+  b.cfg = a.cfg ∧ b.c = a.c ∧ b.whiteStones = a.whiteStones ∧ b.whiteCaps = a.whiteCaps ∧ b.blackStones = a.blackStones ∧
+  b.blackCaps = a.blackCaps ∧ b.move = a.move
+
+theorem Frame.refl (a : Pos) : Frame a a := ⟨rfl, rfl, rfl, rfl, rfl, rfl, rfl⟩
+theorem Frame.trans {a b c : Pos} (h1 : Frame a b) (h2 : Frame b c) : Frame a c := by
+  obtain ⟨a1, a2, a3, a4, a5, a6, a7⟩ := h1
+  obtain ⟨b1, b2, b3, b4, b5, b6, b7⟩ := h2
+  exact ⟨b1.trans a1, b2.trans a2, b3.trans a3, b4.trans a4, b5.trans a5, b6.trans a6, b7.trans a7⟩
+
+theorem dropOn_frame (basis : Array W) (nx : Pos) (top : Piece) (stack : W) (ct c i : Nat) :
+    Frame nx (dropOn basis nx top stack ct c i) := by
+  unfold dropOn Pos.setStack Frame
+  simp only []
+  split <;> split <;> (try split) <;> simp
+
+theorem slideStep_frame (basis : Array W) (p : Pos) (top : Piece) (stack : W) (dx dy : Int) (st st' : SlideSt) (c : Nat)
+    (h : slideStep basis p top stack dx dy st c = .ok st') : Frame st.next st'.next := by
+  unfold slideStep at h
+  simp only [] at h
+  split at h
+  · cases h
+  split at h
+  · cases h
+  split at h
+  · cases h
+  rename_i nx hnx
+  have hf : Frame st.next nx := by
+    unfold enterSquare at hnx
+    split at hnx
+    · cases hnx
+    split at hnx
+    · split at hnx
+      · cases hnx
+      · cases hnx; exact ⟨rfl, rfl, rfl, rfl, rfl, rfl, rfl⟩
+    · cases hnx; exact Frame.refl _
+  cases h
+  exact hf.trans (dropOn_frame basis nx top stack st.ct c _)
+
+theorem slideLoop_frame (basis : Array W) (p : Pos) (top : Piece) (stack : W) (dx dy : Int) (l : List Nat) :
+    ∀ (st st' : SlideSt), slideLoop basis p top stack dx dy l st = .ok st' → Frame st.next st'.next := by
+  induction l with
+  | nil => intro st st' h; simp only [slideLoop] at h; cases h; exact Frame.refl _
+  | cons c cs ih =>
+    intro st st' h
+    simp only [slideLoop] at h
+    split at h
+    · cases h
+    · rename_i st1 h1
+      exact (slideStep_frame basis p top stack dx dy st st1 c h1).trans (ih st1 st' h)
+
+theorem liftFrom_frame (basis : Array W) (nx : Pos) (stack : W) (h ct i : Nat) :
+    Frame nx (liftFrom basis nx stack h ct i) ∧ (liftFrom basis nx stack h ct i).height.size = nx.height.size ∧
+    (liftFrom basis nx stack h ct i).stacks.size = nx.stacks.size := by
+  unfold liftFrom Pos.setStack Frame
+  simp only []
+  split <;> (try split) <;> simp
+
+theorem slideStep_illegal (basis : Array W) (p : Pos) (top : Piece) (stack : W) (dx dy : Int) (st : SlideSt) (c : Nat) (e : Err)
+    (h : slideStep basis p top stack dx dy st c = .error e) : ∃ w, e = .illegal w := by
+  unfold slideStep at h
+  simp only [] at h
+  split at h
+  · cases h; exact ⟨_, rfl⟩
+  split at h
+  · cases h; exact ⟨_, rfl⟩
+  split at h
+  · rename_i e' he
+    cases h
+    unfold enterSquare at he
+    split at he
+    · cases he; exact ⟨_, rfl⟩
+    split at he
+    · split at he
+      · cases he; exact ⟨_, rfl⟩
+      · cases he
+    · cases he
+  · cases h
+
+theorem slideLoop_illegal (basis : Array W) (p : Pos) (top : Piece) (stack : W) (dx dy : Int) (l : List Nat) :
+    ∀ (st : SlideSt) (e : Err), slideLoop basis p top stack dx dy l st = .error e → ∃ w, e = .illegal w := by
+  induction l with
+  | nil => intro st e h; simp only [slideLoop] at h; cases h
+  | cons c cs ih =>
+    intro st e h
+    simp only [slideLoop] at h
+    split at h
+    · rename_i e' he; cases h; exact slideStep_illegal basis p top stack dx dy st c _ he
+    · rename_i st1 h1; exact ih st1 e h
+
 /-- **the drop loop**: with fuel `n + 1` on an iterator word of at most `n` nibbles, the regenerated loop ends like the
 model's `slideLoop` over the nibbles: the same error class, or the same state (the index variable and the iterator
 are dead after the loop) -/
